@@ -61,7 +61,9 @@ def extreme_archive(r):
     if k < 0.3:      # level-3 header with huge length field
         f = G.rand_fields(r, level=3)
         hb = bytearray(E.encode(f))
-        hb[24:28] = r.choice([0xffffffff, 0x7fffffff, 0x00100001, 0x00100000, 0x000fffff, len(hb) + 100000]).to_bytes(4, "little")
+        hb[24:28] = r.choice([0xffffffff, 0x7fffffff, 0x00100001, 0x00100000, 0x000fffff, len(hb) + 100000,
+                              # between the 1 MiB ceiling and the next powers of two / sixteen: 2, 4, 9, 12, 16 MiB and one beyond
+                              0x00200000, 0x00400000, 0x00900000, 0x00c00000, 0x01000000, 0x01000001, 0x02000000, 0x10000000]).to_bytes(4, "little")
         return bytes(hb) + S.rand_bytes(r, r.choice([0, 10, 5000]))
     if k < 0.4:      # level-1 whose extended-header chain is LONGER than the declared skip size (the header must be rejected; were it
         #                  accepted, the member length would wrap to ~4 GiB and a seekable source would be positioned backwards)
